@@ -185,7 +185,7 @@ impl InternalObserver {
 //@ name: num_handlers
 //@ as: fn num_handlers(&self) -> (r: i32)
 //@ cells: on_update_handlers
-//@ props: C11
+//@ props: C05 C09 C10 C11
 //@ contract:
 //@|     requires self.handlers().len() <= i32::MAX,
 //@|     ensures r == self.handlers().len(), // [counts-registered-handlers]
@@ -197,7 +197,7 @@ impl InternalObserver {
 //@ name: value_inner
 //@ as: fn value_inner(&self) -> (r: Result<u64, ObserverError>)
 //@ cells: state
-//@ props: C10 C07
+//@ props: C07 C10 C13
 //@ contract:
 //@|     ensures
 //@|         self.state is Created ==> r == Err::<u64, ObserverError>(ObserverError::NeverStabilised), // [unusable-until-first-stabilise]
@@ -211,7 +211,7 @@ impl InternalObserver {
 //@ name: try_get_value
 //@ as: fn try_get_value(&self) -> (r: Result<u64, ObserverError>)
 //@ cells: state
-//@ props: C10 C07 C13
+//@ props: C07 C10 C13
 //@ contract:
 //@|     ensures
 //@|         node_state(&self.observing.node) is None ==> r == Err::<u64, ObserverError>(ObserverError::ObservingInvalid), // [state-gone]
@@ -230,7 +230,7 @@ impl InternalObserver {
 //@ as: fn disallow_future_use(&mut self, state: &mut State)
 //@ cells: state, on_update_handlers
 //@ cells@state: num_active_observers, disallowed_observers
-//@ props: C10 C05 C07
+//@ props: C05 C07 C09 C10 C13
 //@ contract:
 //@|     requires old(self).alive() ==> old(state).num_active_observers >= 1,
 //@|     ensures
@@ -249,7 +249,7 @@ impl InternalObserver {
 //@ as: fn subscribe(&mut self, handler: OnUpdateHandler) -> (r: Result<SubscriptionToken, ObserverError>)
 //@ cells: state, on_update_handlers, next_subscriber
 //@ cellalias: num = self.observing.node.num_on_update_handlers
-//@ props: C10 C09 C11
+//@ props: C09 C10 C11
 //@ contract:
 //@|     requires old(self).next_subscriber.1 < i32::MAX, old(self).node_count() < i32::MAX,
 //@|     ensures
@@ -269,7 +269,7 @@ impl InternalObserver {
 //@ as: fn unsubscribe(&mut self, token: SubscriptionToken) -> (r: Result<(), ObserverError>)
 //@ cells: state, on_update_handlers
 //@ cellalias: num = self.observing.node.num_on_update_handlers
-//@ props: C10 C09 C11
+//@ props: C09 C10 C11
 //@ contract:
 //@|     requires old(self).node_count() > i32::MIN,
 //@|     ensures
@@ -289,7 +289,7 @@ impl InternalObserver {
 //@ as: fn add_to_observed_node(&mut self)
 //@ cells: on_update_handlers
 //@ cellalias: num = self.observing.node.num_on_update_handlers
-//@ props: C11 C09
+//@ props: C05 C09 C10 C11
 //@ contract:
 //@|     requires old(self).handlers().len() <= i32::MAX, old(self).node_count() + old(self).handlers().len() <= i32::MAX,
 //@|     ensures
@@ -304,7 +304,7 @@ impl InternalObserver {
 //@ as: fn remove_from_observed_node(&mut self)
 //@ cells: on_update_handlers
 //@ cellalias: num = self.observing.node.num_on_update_handlers
-//@ props: C11 C09
+//@ props: C05 C09 C10 C11
 //@ contract:
 //@|     requires old(self).handlers().len() <= i32::MAX, old(self).node_count() - old(self).handlers().len() >= i32::MIN,
 //@|     ensures
@@ -343,7 +343,7 @@ impl ObservedNode {
 //@ name: add_observer
 //@ as: fn add_observer(&mut self, id: ObserverId, weak: WeakObserver)
 //@ cells: observers
-//@ props: C05 C10
+//@ props: C05 C10 C11
 //@ contract:
 //@|     ensures final(self).observers@ == old(self).observers@.insert(id, weak), // [the-observer-is-registered-under-its-id-others-kept]
 //@end
@@ -354,7 +354,7 @@ impl ObservedNode {
 //@ name: remove_observer
 //@ as: fn remove_observer(&mut self, id: ObserverId)
 //@ cells: observers
-//@ props: C05 C10
+//@ props: C05 C10 C11
 //@ contract:
 //@|     ensures final(self).observers@ == old(self).observers@.remove(id), // [exactly-that-observer-is-deregistered-in-every-build]
 //@end
@@ -410,7 +410,7 @@ impl StateObservers {
 //@ as: fn unsubscribe(&self, token: SubscriptionToken)
 //@ cells: all_observers, new_observers
 //@ rule R8: `obs.unsubscribe(token)` => `obs.unsubscribe__shared(token)` x*
-//@ props: C10 C09
+//@ props: C09 C10 C11
 //@ contract:
 //@|     requires self.keyed_by_id(),
 //@|     // [unsubscribing-through-the-state-never-panics]: each `unwrap()` is an obligation; an unknown / departed
@@ -428,7 +428,7 @@ impl StateObservers {
 //@ panics: diverge
 //@ rule R8: `obs.unsubscribe(token)` => `obs.unsubscribe__reached(token)` x*
 //@ rule R7 re: `for (\w+) in (\w+)\.iter\(\)` => `for \1 in vx_it: \2.iter()` x*
-//@ props: C09
+//@ props: C09 C10 C11
 //@ contract:
 //@|     requires self.keyed_by_id(), self.knows(token.0),
 //@|     ensures false, // [unsubscribing-through-the-state-reaches-the-tokens-observer-linked-or-not-yet-linked]
@@ -562,7 +562,7 @@ impl Observer {
 //@ as: fn disallow_future_use(&self)
 //@ panics: diverge
 //@ rule R8: `self.internal.disallow_future_use(&state);` => `vx_diverge();` x1
-//@ props: C10 C05 C07
+//@ props: C05 C07 C09 C10 C13
 //@ contract:
 //@|     requires shared_state_alive(&*self.internal),
 //@|     ensures false, // [explicit-disallow-always-reaches-the-shared-observer-whatever-its-lifecycle-state]
@@ -575,7 +575,7 @@ impl Observer {
 //@ as: fn drop__other_clones_alive(&mut self)
 //@ rule R8: `self.internal.disallow_future_use(&state);` => `vx_forbidden();` x*
 //@ rule R8 re: `self\.internal\s*\.state\s*\.set\(ObserverState::Disallowed\);` => `vx_forbidden();` x*
-//@ props: C10 C05 C07
+//@ props: C05 C07 C10 C13
 //@ contract:
 //@|     requires rc_count(&old(self).sentinel) >= 2,       // another clone of this observer handle is alive
 //@|     // [dropping-a-clone-that-is-not-the-last-touches-nothing]: every transition is replaced by a call that
@@ -590,7 +590,7 @@ impl Observer {
 //@ panics: diverge
 //@ rule R8: `self.internal.disallow_future_use(&state);` => `vx_diverge();` x*
 //@ rule R8 re: `self\.internal\s*\.state\s*\.set\(ObserverState::Disallowed\);` => `vx_forbidden();` x*
-//@ props: C10 C05 C07
+//@ props: C05 C07 C10 C13
 //@ contract:
 //@|     requires rc_count(&old(self).sentinel) <= 1, shared_state_alive(&*old(self).internal),
 //@|     ensures false, // [dropping-the-last-clone-always-reaches-disallow_future_use]  (the call is replaced by a diverging one)
@@ -604,7 +604,7 @@ impl Observer {
 //@ panics: diverge
 //@ rule R8: `self.internal.disallow_future_use(&state);` => `vx_forbidden();` x*
 //@ rule R8 re: `self\.internal\s*\.state\s*\.set\(ObserverState::Disallowed\);` => `vx_diverge();` x*
-//@ props: C10 C13
+//@ props: C05 C07 C10 C13
 //@ contract:
 //@|     requires rc_count(&old(self).sentinel) <= 1, !shared_state_alive(&*old(self).internal),
 //@|     ensures false, // [dropping-the-last-clone-after-the-state-marks-the-observer-Disallowed]
